@@ -130,6 +130,7 @@ def variants(tier):
             for archive in (False, True):
                 v.append(dict(fmt=fmt, epoch=epoch, archive=archive, forced=False))
         v.append(dict(fmt=fmt, epoch=2, archive=False, forced=True))
+        v.append(dict(fmt=fmt, epoch=3, archive=True, forced=False, blank_tbm=True))     # TBM header whose name field is blank (42 NUL + 2 spaces)
     # scan line numbers using the top bit of the (unsigned, KLM) field: legal for LAC/FRAC passes (< 65535)
     v.append(dict(fmt="lac_klm", version=5, archive=False, first=32765))
     v.append(dict(fmt="gac_klm", version=2, archive=True, first=14990))
@@ -209,7 +210,7 @@ def run(res, tier, seed):
             l1b.put(base, hl, "data_type_code", 1 if lac else 2)
             hvals.update({"data_set_name": [name.encode().ljust(w)], "noaa_spacecraft_identification_code": [l1b.POD_SC[sc][0]],
                           "number_of_scans": [hdr_count], "start_time": tw, "data_type_code": [1 if lac else 2]})
-            arch = l1b.make_tbm_header(name) if var["archive"] else b""
+            arch = (l1b.make_tbm_header(blank_name=True) if var.get("blank_tbm") else l1b.make_tbm_header(name)) if var["archive"] else b""
             asize = 122
             kw = {}
             if var.get("forced"):
